@@ -351,6 +351,10 @@ func (in *interp) isNil(x value) bool {
 		return x.t == nil
 	case *opaque:
 		return x == nil
+	case *nativeFn:
+		return x == nil
+	case *opaqueMethod:
+		return x == nil
 	}
 	panic(fmt.Sprintf("isNil: %T", x))
 }
